@@ -508,6 +508,9 @@ class C10Part(WirePart):
                             bad.append(("%s/baseline-%s" % (self.fam, c), "%s %s: %s" % (w[1], w[2][:160], d["checks"]), i))
                 elif d["content"] != want:
                     bad.append(("%s/baseline-content-changed" % self.fam, "%s %s: recorded `%s`, now `%s`" % (w[1], w[2][:120], want[:200], d["content"][:200]), i))
+            elif w[0] == "ser" and o.startswith("SERCRASH "):
+                ww = o.split()
+                bad.append(("%s/ser-%s" % (self.fam, ww[2]), "%s: sanitizer abort / exception inside serialize/deserialize/getters of a VALID sketch (%s)" % (ww[1], ww[2]), i))
             elif w[0] == "ser" and not o.startswith("IMG "):
                 bad.append(("%s/serialize-throws" % self.fam, o[:120], i))
         return bad
@@ -713,7 +716,7 @@ FINDING_RULES = [
      "get_result() of a union restored from a baseline image throws (gadget restored with m = 1)"),
     ("C09", "vunion/get-result-ubsan:move.h:load-of-value-which-is", {}, "C09-varopt-gadget-marks-uninitialised",
      "deserialize leaves marks_[h..] of a gadget uninitialised; get_result() of the restored union swaps them (UBSan invalid bool load)"),
-    ("C09", "ebpps/ser-ubsan:serde.hpp:null-pointer-passed-as-argument", {}, "C09-serde-null-memcpy",
+    ("{c}", "ebpps/ser-ubsan:serde.hpp:null-pointer-passed-as-argument", dict(c=["C09", "C10"]), "C09-serde-null-memcpy",
      "serialize(bytes) of an EBPPS sample without full items: memcpy(ptr, nullptr, 0)"),
     ("C09", "ebpps/state-items-ne-floor-c", {}, "C09-ebpps-items-vs-c",
      "reachable EBPPS state (after merge) holds fewer full items than floor(c); its own image is rejected by the reader"),
@@ -762,7 +765,7 @@ def expand_rules():
         names = list(ph)
         for combo in itertools.product(*[ph[n] for n in names]):
             key = tmpl.format(**dict(zip(names, combo)))
-            out.append(dict(property=prop, key=key, status="open", group="count",
+            out.append(dict(property=prop.format(**dict(zip(names, combo))), key=key, status="open", group="count",
                             what="%s [proposed_fixes/%s]" % (what, fix.replace(" + ", ", proposed_fixes/"))))
     return out
 
